@@ -552,3 +552,88 @@ Proof.
   exists [TvProgress 40; TvCheck 41; TvProgress 80; TvCheck 81; TvProgress 120; TvCheck 121].
   split; [cbn; lia|vm_compute; reflexivity].
 Qed.
+
+(* ------------------------------------------------------------------ (F) Block2 server table *)
+Definition blk_xtab_ok (bodies : Z -> bytes) (t : blk_xtab) : Prop :=
+  Forall (fun x => xm_body x = bodies (xm_key x)) t.
+
+Lemma blk_xtab_find_ok bodies t k x : blk_xtab_ok bodies t -> blk_xtab_find t k = Some x ->
+  xm_key x = k /\ xm_body x = bodies k.
+Proof.
+  induction t as [|y t IH]; cbn [blk_xtab_find]; [discriminate|].
+  intros Hok. inversion Hok as [|? ? Hy Ht]; subst.
+  destruct (xm_key y =? k) eqn:E; [|apply IH, Ht].
+  intros H. inversion H; subst. split; [lia|]. rewrite Hy. f_equal. lia.
+Qed.
+
+Lemma blk_xtab_remove_ok bodies t k : blk_xtab_ok bodies t -> blk_xtab_ok bodies (blk_xtab_remove t k).
+Proof.
+  induction t as [|y t IH]; cbn [blk_xtab_remove]; [tauto|].
+  intros Hok. inversion Hok as [|? ? Hy Ht]; subst.
+  destruct (xm_key y =? k); [exact Ht|]. constructor; [exact Hy|apply IH, Ht].
+Qed.
+
+(* what a response may carry: a block of the body that belongs to the REQUEST's key - never of a
+   body stored for another query / Request-Tag; and at the offset the request named whenever the
+   requested size is within the server's maximum *)
+Definition blk_gresp_ok (bodies : Z -> bytes) (maxszx : Z) (g : blk_greq) (r : blk_gresp) : Prop :=
+  match r with
+  | GrError _ => True
+  | GrBlock num m szx data =>
+      exists s, data = blk_slice_c (bodies (gq_key g)) (blk_chunk s) num /\ num = gq_num g /\
+                ((maxszx = 0 \/ gq_szx g <= maxszx) -> gq_num g <> 0 -> s = gq_szx g /\ szx = gq_szx g)
+  end.
+
+Lemma blk_srv2_recv_ok bodies maxszx t g : blk_xtab_ok bodies t ->
+  blk_xtab_ok bodies (fst (blk_srv2_recv bodies maxszx t g)) /\
+  blk_gresp_ok bodies maxszx g (snd (blk_srv2_recv bodies maxszx t g)).
+Proof.
+  intros Hok.
+  assert (App : blk_xtab_ok bodies (fst (blk_srv2_app bodies maxszx t g)) /\
+                blk_gresp_ok bodies maxszx g (snd (blk_srv2_app bodies maxszx t g))).
+  { unfold blk_srv2_app.
+    destruct (negb (gq_num g =? 0) && (len (bodies (gq_key g)) <=? gq_num g * blk_chunk (gq_szx g)));
+      cbn [fst snd]; [split; [exact Hok|exact I]|].
+    pose proof (blk_xtab_remove_ok bodies t (gq_key g) Hok) as Hr.
+    set (s := if negb (maxszx =? 0) && (maxszx <? gq_szx g) then maxszx else gq_szx g).
+    destruct (negb (gq_num g =? 0)) eqn:En; cbn [fst snd].
+    - split; [exact Hr|]. exists s. split; [reflexivity|]. split; [reflexivity|].
+      intros Hm _. split; [|reflexivity]. unfold s.
+      destruct (negb (maxszx =? 0) && (maxszx <? gq_szx g)) eqn:E; [lia|reflexivity].
+    - assert (gq_num g = 0) as E0 by lia.
+      destruct (blk_chunk s <? len (bodies (gq_key g))) eqn:Ec; cbn [fst snd].
+      + split; [constructor; [reflexivity|exact Hr]|]. exists s. split; [reflexivity|].
+        split; [lia|]. intros _ X. lia.
+      + split; [exact Hr|]. exists s. split; [|split; [lia|intros _ X; lia]].
+        unfold blk_slice_c. rewrite Z.mul_0_l. unfold drop. cbn [Z.to_nat skipn].
+        symmetry. apply blk_take_all. lia. }
+  unfold blk_srv2_recv. destruct (gq_num g =? 0) eqn:E0; [exact App|].
+  destruct (blk_xtab_find t (gq_key g)) as [x|] eqn:Ef; [|exact App].
+  destruct (blk_xtab_find_ok bodies t (gq_key g) x Hok Ef) as (Ek & Eb).
+  destruct (negb (gq_szx g =? xm_szx x)) eqn:Es; cbn [fst snd]; [split; [exact Hok|exact I]|].
+  destruct (len (xm_body x) <=? gq_num g * blk_chunk (xm_szx x)); cbn [fst snd];
+    [split; [exact Hok|exact I]|].
+  split; [exact Hok|]. exists (xm_szx x). rewrite Eb. split; [reflexivity|]. split; [reflexivity|].
+  intros _ _. split; lia.
+Qed.
+
+(* Downloads of one resource that differ in the query (or Request-Tag), interleaved in any way,
+   restarted, continued after the stored body is gone: every block the server sends in reply to
+   a request is cut from the body of THAT request's key *)
+Theorem blk_srv2_no_mix bodies maxszx : forall l t, blk_xtab_ok bodies t ->
+  Forall (fun gr => blk_gresp_ok bodies maxszx (fst gr) (snd gr)) (blk_srv2_run bodies maxszx t l).
+Proof.
+  induction l as [|g l IH]; intros t Hok; cbn [blk_srv2_run]; [constructor|].
+  pose proof (blk_srv2_recv_ok bodies maxszx t g Hok) as (H1 & H2).
+  destruct (blk_srv2_recv bodies maxszx t g) as [t' r]. cbn [fst snd] in *.
+  constructor; [exact H2|apply IH, H1].
+Qed.
+
+(* ... and the single-block path does cut at the wrong place when the server's maximum block
+   size is below the requested one (random access to block NUM > 0 without a stored body):
+   the option says block 1 of size 64, the payload is bytes 32..63 *)
+Example blk_srv2_single_block_quirk :
+  let body := map (fun i => Z.of_nat i) (seq 0 200) in
+  snd (blk_srv2_recv (fun _ => body) 1 [] {| gq_key := 0; gq_num := 1; gq_szx := 2 |})
+  = GrBlock 1 1 2 (map (fun i => Z.of_nat i) (seq 32 32)).
+Proof. vm_compute. reflexivity. Qed.
